@@ -607,6 +607,14 @@ def oracle(case, impl):
                 honest = [r for r in order if amap[r][0] == "M" and spec_matches(req, amap[r][2])]
                 if honest:
                     return f"remote {honest[0]} answered with a manifest that hashes to the requested value, but the call failed ({impl})"
+                # "not found" is claimed exactly when every cluster said so; a remote that failed or
+                # returned a different manifest makes it a gateway error (client did not give up)
+                if "cc=0" in g:
+                    all404 = all(a == ("E", 404) for _, a in rem)
+                    if g[1] == "404" and not all404:
+                        return "404 returned although a remote failed, hung or returned a mismatching manifest"
+                    if g[1] != "404" and all404:
+                        return f"every cluster answered 404 but the call returned {g[1]}"
             return None
         return "unrecognised result " + impl[:100]
     if f[0] == "legacy":
@@ -657,6 +665,12 @@ def oracle(case, impl):
                 honest = [r for r in order if amap[r][0] == "R" and _legacy_plain_honest(req, amap[r])]
                 if honest:
                     return f"remote {honest[0]} answered with a plainly valid signed record for the requested hash, but the legacy delegate failed ({impl})"
+                if "cc=0" in g:
+                    all404 = all(a == ("S", 404) for _, a in rem)
+                    if g[1] == "404" and not all404:
+                        return "legacy delegate: 404 returned although a remote failed or returned an unacceptable record"
+                    if g[1] != "404" and all404:
+                        return f"legacy delegate: every cluster answered 404 but the result is {g[1]}"
             return None
         if g[0] in ("unhandled", "localstatus"):
             return None
